@@ -38,6 +38,9 @@ def ident(y):
     return y
 
 
+FAR = 3.0e6
+
+
 def build(kind):
     import elfi
     m = elfi.ElfiModel(name='smc_' + kind)
@@ -45,6 +48,10 @@ def build(kind):
         t = elfi.Prior('uniform', 0, 4, model=m, name='t')
         Y = elfi.Simulator(sim1, t, model=m, name='Y', observed=np.array([2.0]))
         prior = lambda th: ss.uniform.pdf(th[:, 0], 0, 4)
+    elif kind == 'far':      # a location far from the origin relative to its spread (a timestamp, a count in the millions)
+        t = elfi.Prior('uniform', FAR, 4, model=m, name='t')
+        Y = elfi.Simulator(sim1, t, model=m, name='Y', observed=np.array([FAR + 2.0]))
+        prior = lambda th: ss.uniform.pdf(th[:, 0], FAR, 4)
     elif kind == 'unbounded':
         t = elfi.Prior('norm', 1, 2, model=m, name='t')
         Y = elfi.Simulator(sim1, t, model=m, name='Y', observed=np.array([2.0]))
@@ -77,6 +84,7 @@ def build(kind):
     # the tail of a normal conditional (|z| > 38) although the point is inside the support
     prior.support = {
         'bounded': lambda th: (th[:, 0] >= 0) & (th[:, 0] <= 4),
+        'far': lambda th: (th[:, 0] >= FAR) & (th[:, 0] <= FAR + 4),
         'unbounded': lambda th: np.isfinite(th[:, 0]),
         'hier': lambda th: np.isfinite(th[:, 0]) & (th[:, 1] >= 0) & (th[:, 1] <= 3),
         'two': lambda th: np.isfinite(th[:, 0]) & (th[:, 1] >= -1) & (th[:, 1] <= 2),
@@ -256,6 +264,12 @@ def run(ctx):
             for sc in (['thresholds', [0.5, 0.1]], ['thresholds', [1.0, 0.3, 0.1]], ['quantiles', [0.5, 0.3]]):
                 for s in seeds + [base + 11, base + 12]:
                     cases.append({'kind': 'smc', 'model': 'hier-scale', 'bs': bs, 'n_samples': n, 'schedule': sc, 'seed': s})
+    # a parameter far from the origin: covariances and mixture densities must not lose the spread to cancellation
+    for bs in (3,):
+        for n in (4, 6) if q else (4, 6, 9):
+            for sc in (['thresholds', [1.0, 0.6]], ['quantiles', [0.5, 0.5]], ['thresholds', [1.5, 1.0, 0.6]]):
+                for s in seeds:
+                    cases.append({'kind': 'smc', 'model': 'far', 'bs': bs, 'n_samples': n, 'schedule': sc, 'seed': s})
     # continued sampling on the same sampler object
     for model in ('bounded', 'hier'):
         for bs in (1, 3):
@@ -267,7 +281,7 @@ def run(ctx):
                         cases.append({'kind': 'smc', 'model': model, 'bs': bs, 'n_samples': n, 'schedule': first,
                                       'continue': second, 'seed': s})
     ctx.run_cases(run_smc, cases, 'smc', sample_every=max(1, len(cases) // 6))
-    ctx.rule = ('full product prior family {bounded, unbounded, hierarchical, two-parameter} x batch_size x n_samples x '
+    ctx.rule = ('full product prior family {bounded, unbounded, hierarchical, two-parameter; hierarchical-scale and far-from-origin on sub-grids} x batch_size x n_samples x '
                 'round schedule (threshold lists, quantile lists) x seed, plus continued sampling on the same object; '
                 'non-trivial = run produced populations with non-degenerate weights; distinct by case content')
     ctx.assumptions += [
